@@ -24,6 +24,10 @@ def scenarios(tier):
     # inherited (GNU make style) jobserver: the harness owns the pipes
     L.append((SC.scn("inherit-fan3-n2", w["fan3"], ["redo-ifchange top"], visible=VIS, jobserver=2, limit=2), 1 if q else 2))
     L.append((SC.scn("inherit-cross-n2", w["cross"], ["redo-ifchange p q"], visible=VIS, jobserver=2, limit=2), 1 if q else 2))
+    # the make parent competes: it may take a token out of the pipe at any step and return it later (forced when
+    # nothing else can run) -- "token stolen between select and read", starvation and hand-back paths
+    L.append((SC.scn("inherit-fan3-n2-make-competes", w["fan3"], ["redo-ifchange top"], visible=VIS, jobserver=2, limit=2,
+                     make_player=1), 1 if q else 2))
     # log capture on: redo-log follows the build, which enables token cheating for the foreground job
     L.append((SC.scn("own-log-fan3-j2", w["fan3"], ["redo -j2 top"], visible=VIS, limit=2, log_mode=True), 1 if q else 2))
     if not q:
@@ -34,6 +38,10 @@ def scenarios(tier):
         L.append((SC.scn("inherit-failfan-n2", w["failfan"], ["redo-ifchange top"], visible=VIS, jobserver=2, limit=2, may_fail=True), 2))
         L.append((SC.scn("inherit-error-exit-n2", abort_world(), ["redo-ifchange a"], visible=VIS, jobserver=2, limit=2, may_fail=True), 2))
         L.append((SC.scn("inherit-log-diamond-n2", w["diamond"], ["redo-ifchange top"], visible=VIS, jobserver=2, limit=2, log_mode=True), 2))
+        L.append((SC.scn("inherit-fan3-n3-make-competes", w["fan3"], ["redo-ifchange top"], visible=VIS, jobserver=3, limit=3,
+                         make_player=2), 2))
+        L.append((SC.scn("inherit-failshared-n2-make-competes", w["failshared"], ["redo-ifchange a b"], visible=VIS, jobserver=2,
+                         limit=2, may_fail=True, make_player=1), 2))
         L.append((SC.scn("inherit-two-invocations-n2", w["shared"], ["redo-ifchange t1", "redo-ifchange t2"], visible=VIS, jobserver=2, limit=3), 2))
     return L
 
@@ -110,7 +118,9 @@ def main(tier):
              "write, fork hand-over, select! order, lock wait, scripts. Oracle: peak number of scripts inside work sections <= N (+1 only "
              "if a cheat token was granted); the toplevel self-check and the hook-reported counts agree with N; in inherited mode the "
              "pipe holds exactly N-1 tokens and the cheat pipe is empty when every process has exited -- on success, failure and error exit",
-        assumptions=["work sections exclude the time a script waits for its own redo-ifchange", "the harness never takes tokens itself"],
+        assumptions=["work sections exclude the time a script waits for its own redo-ifchange",
+                     "the make parent takes tokens only in the *-make-competes scenarios (<= 2 takes, each take and each voluntary "
+                     "return is a deviation; a held token is returned when nothing else can run)"],
         budget_s=600 if tier == "quick" else 3000)
 
 
